@@ -22,6 +22,8 @@ mod c20;
 mod c19;
 mod gen_typed;
 mod c03;
+mod gen_schema_text;
+mod c09;
 
 use out::Out;
 
@@ -78,6 +80,7 @@ fn main() {
                 "c19h" => c19::run_histories(&args, &mut out),
                 "c19cli" => c19::run_cli(&args, &mut out),
                 "c03" => c03::run(&args, &mut out),
+                "c09" => c09::run(&args, &mut out),
                 s => { eprintln!("unknown stream {s}"); std::process::exit(2); }
             }
             out.write(&args.out);
